@@ -33,7 +33,7 @@ MANIFEST = {
 
 INVS = ["TypeOK", "C17_DepsAreEdges", "C17_Topological", "C17_CyclicRejected", "C17_OnlyCyclicRejected",
         "C17_NothingRunsUnlessNumbered", "C18_Command", "C18_OnePath", "C18_DistinctLocal", "C18_Transfer",
-        "C18_Parents", "C18_DistinctRemote", "C18_External"]
+        "C18_Parents", "C18_DistinctRemote", "C18_External", "C18_NoDangling"]
 
 NAMES = ["o", "w's $x"]
 GROUP = ["a", "b"]
